@@ -27,6 +27,19 @@ pub struct Annotations {
 impl Annotations {
     pub fn new(annotations: &[&str], n_fri_layers: usize) -> anyhow::Result<Annotations> {
         let ZAlpha { z, alpha } = ZAlpha::extract(annotations)?;
+        let oods_values = Annotation::OodsValues.extract(annotations)?;
+        anyhow::ensure!(!oods_values.is_empty(), "No OodsValues in annotations!");
+        let fri_layers_commitments = Annotation::FriLayersCommitments.extract(annotations)?;
+        anyhow::ensure!(
+            fri_layers_commitments.len() + 1 == n_fri_layers,
+            "Wrong number of FriLayersCommitments in annotations!"
+        );
+        let fri_last_layer_coefficients =
+            Annotation::FriLastLayerCoefficients.extract(annotations)?;
+        anyhow::ensure!(
+            !fri_last_layer_coefficients.is_empty(),
+            "No FriLastLayerCoefficients in annotations!"
+        );
         Ok(Annotations {
             z,
             alpha,
@@ -45,10 +58,9 @@ impl Annotations {
                 .first()
                 .ok_or(anyhow::anyhow!("No CompositionCommitmentHash in annotations!"))?
                 .clone(),
-            oods_values: Annotation::OodsValues.extract(annotations)?,
-            fri_layers_commitments: Annotation::FriLayersCommitments.extract(annotations)?,
-            fri_last_layer_coefficients: Annotation::FriLastLayerCoefficients
-                .extract(annotations)?,
+            oods_values,
+            fri_layers_commitments,
+            fri_last_layer_coefficients,
             proof_of_work_nonce: Annotation::ProofOfWorkNonce
                 .extract(annotations)?
                 .first()
